@@ -317,6 +317,14 @@ func ruleMathMap(c *Ctx) {
 			okRes = v == ssa.Value(call)
 			// …or a phi one of whose edges is the result and whose other edges are derived from it (the
 			// exactness correction of log10: the rounded result where that is verified to be exact)
+			// …or what a new helper (one the baseline does not know) makes of the result it is handed
+			if hc, isCall := v.(*ssa.Call); isCall && !okRes && isNewHelper(hc.Call.StaticCallee()) {
+				for _, a := range hc.Call.Args {
+					if stripConv(a) == ssa.Value(call) {
+						okRes = true
+					}
+				}
+			}
 			if ph, isPhi := v.(*ssa.Phi); isPhi && !okRes {
 				okRes = true
 				for _, e := range ph.Edges {
